@@ -174,66 +174,77 @@ pub fn compile(rx: &Rx, preds: &mut Preds) -> M {
     }
 }
 
-/// A set of positions 0..=n.
-#[derive(Clone, PartialEq, Eq, Debug)]
+/// A set of positions 0..=n, kept as a sorted vector (the sets are tiny in practice, and inputs
+/// may be thousands of characters long).
+#[derive(Clone, PartialEq, Eq, Debug, Default)]
 pub struct Pos {
-    w: Vec<u64>,
+    v: Vec<u32>,
 }
 
 impl Pos {
-    pub fn new(n: usize) -> Self {
-        Pos {
-            w: vec![0; n / 64 + 1],
-        }
+    pub fn new(_n: usize) -> Self {
+        Pos { v: Vec::new() }
     }
-    pub fn single(n: usize, p: usize) -> Self {
-        let mut s = Pos::new(n);
-        s.insert(p);
-        s
+    pub fn single(_n: usize, p: usize) -> Self {
+        Pos { v: vec![p as u32] }
     }
+    /// insert keeping the order (positions are mostly appended in ascending order)
     #[inline]
     pub fn insert(&mut self, p: usize) {
-        self.w[p >> 6] |= 1 << (p & 63);
+        let p = p as u32;
+        match self.v.last() {
+            None => self.v.push(p),
+            Some(l) if *l < p => self.v.push(p),
+            Some(l) if *l == p => {}
+            _ => {
+                if let Err(i) = self.v.binary_search(&p) {
+                    self.v.insert(i, p);
+                }
+            }
+        }
     }
     #[inline]
     pub fn contains(&self, p: usize) -> bool {
-        (self.w[p >> 6] >> (p & 63)) & 1 == 1
+        self.v.binary_search(&(p as u32)).is_ok()
     }
     pub fn is_empty(&self) -> bool {
-        self.w.iter().all(|x| *x == 0)
+        self.v.is_empty()
     }
+    /// union; returns true if something new was added
     pub fn union_with(&mut self, o: &Pos) -> bool {
+        if o.v.is_empty() {
+            return false;
+        }
+        if self.v.is_empty() {
+            self.v = o.v.clone();
+            return true;
+        }
+        let mut out = Vec::with_capacity(self.v.len() + o.v.len());
+        let (a, b) = (&self.v, &o.v);
+        let (mut i, mut j) = (0, 0);
         let mut changed = false;
-        for (a, b) in self.w.iter_mut().zip(o.w.iter()) {
-            let n = *a | *b;
-            if n != *a {
+        while i < a.len() || j < b.len() {
+            if j >= b.len() || (i < a.len() && a[i] < b[j]) {
+                out.push(a[i]);
+                i += 1;
+            } else if i >= a.len() || b[j] < a[i] {
+                out.push(b[j]);
+                j += 1;
                 changed = true;
-                *a = n;
+            } else {
+                out.push(a[i]);
+                i += 1;
+                j += 1;
             }
         }
+        self.v = out;
         changed
     }
     pub fn iter(&self) -> impl Iterator<Item = usize> + '_ {
-        self.w.iter().enumerate().flat_map(|(wi, w)| {
-            let mut w = *w;
-            std::iter::from_fn(move || {
-                if w == 0 {
-                    None
-                } else {
-                    let t = w.trailing_zeros() as usize;
-                    w &= w - 1;
-                    Some(wi * 64 + t)
-                }
-            })
-        })
+        self.v.iter().map(|x| *x as usize)
     }
     pub fn max(&self) -> Option<usize> {
-        for (wi, w) in self.w.iter().enumerate().rev() {
-            if *w != 0 {
-                return Some(wi * 64 + 63 - w.leading_zeros() as usize);
-            }
-        }
-        None
+        self.v.last().map(|x| *x as usize)
     }
 }
 
